@@ -149,7 +149,8 @@ class ByteArray(SimpleModel):
             # binascii.Error is a ValueError
             logger.exception(e)
 
-            if len(value) < 100:
+            if not isinstance(value, six.binary_type) or len(value) < 100:
+                # not text at all (e.g. a date from a yaml document), or short
                 raise ValidationError(value)
             else:
                 raise ValidationError(value[:100] + b"(...)")
